@@ -303,5 +303,19 @@ def normalise_module(modname, tree):
     visit(tree.body)
     ast.fix_missing_locations(tree)
     tree._sa_normalised = True
-    tree._sa_inlined_helpers = sorted(inl.helpers)
+    # a helper is transparent only if every call of it was inlined; one with a remaining call site stays an ordinary function
+    remaining = set()
+    helper_nodes = {id(h) for h, _ in inl.helpers.values()}
+    def scan(node, inside_helper):
+        for ch in ast.iter_child_nodes(node):
+            ih = inside_helper or id(ch) in helper_nodes
+            if isinstance(ch, ast.Call) and not ih:
+                nm = ch.func.id if isinstance(ch.func, ast.Name) else ch.func.attr if isinstance(ch.func, ast.Attribute) else None
+                if nm in inl.helpers: remaining.add(nm)
+            if isinstance(ch, (ast.Name, ast.Attribute)) and not ih and not isinstance(node, ast.Call):
+                nm = ch.id if isinstance(ch, ast.Name) else ch.attr
+                if nm in inl.helpers and isinstance(getattr(ch, 'ctx', None), ast.Load): remaining.add(nm)      # passed around as a value
+            scan(ch, ih)
+    scan(tree, False)
+    tree._sa_inlined_helpers = sorted(set(inl.helpers) - remaining)
     return tree
